@@ -94,3 +94,12 @@ _ins_ck.ensures = [
 ]
 if "C13" not in _ins_ck.props:
     _ins_ck.props.append("C13")
+
+# the signal handler calls `self.ns.checkpoint()` with NO arguments: with the
+# method's own defaults the importance sampler must not write anything
+contract(
+    INSF, "ImportanceNestedSampler.checkpoint", variant_name="default-call",
+    props=["C13"], params={},          # periodic / force: signature defaults
+    modifies=["self.ghost_ckpt_writes"],
+    ensures=["self.ghost_ckpt_writes == old(self.ghost_ckpt_writes)"],
+)
